@@ -31,6 +31,11 @@ fn run_line(line: &str) -> String {
         "NAME" => pkt::run_name(args),
         "RR" => pkt::run_rr(args),
         "BUILD" => pkt::run_build(args),
+        "TABLE" => {
+            let mut a = vec!["T"];
+            a.extend_from_slice(args);
+            pkt::run_build(&a)
+        }
         "RT" => pkt::run_rt(args),
         "NAMENEW" => textapi::run_namenew(args),
         "STORE" => mdns::run_store(args),
